@@ -418,6 +418,9 @@ func computeFacts(fn *ssa.Function) *FuncFacts {
 			out := s.clone()
 			if ifi, ok := b.Instrs[len(b.Instrs)-1].(*ssa.If); ok {
 				ff.assume(out, ifi.Cond, si == 0)
+				if contradictory(out) {
+					continue // the edge contradicts what is known on every path reaching it: infeasible
+				}
 			}
 			// phi transfer: facts of the incoming value become facts of the phi
 			pi := -1
@@ -738,4 +741,26 @@ func closureOnlyReads(mc *ssa.MakeClosure, a ssa.Value) bool {
 		}
 	}
 	return true
+}
+
+// contradictory reports whether the state holds two facts that exclude each
+// other about one value (possible only on an infeasible edge).
+func contradictory(s *factState) bool {
+	for f := range s.facts {
+		switch f.k {
+		case fTRUE:
+			if s.facts[fact{f.v, fFALSE, ""}] {
+				return true
+			}
+		case fNIL:
+			if s.facts[fact{f.v, fNONNIL, ""}] {
+				return true
+			}
+		case fEQ:
+			if s.facts[fact{f.v, fNEQ, f.c}] {
+				return true
+			}
+		}
+	}
+	return false
 }
